@@ -52,6 +52,19 @@
   { v->data = (T *)__verif_new_array(sizeof(T), VEC_LOCAL_CAP); v->size = 0; v->cap = VEC_LOCAL_CAP; }
 
 VEC_DECL(vec_ulong, size_t)
+/* std::vector<bool>: one _Bool cell per element; operator[] hands out the proxy std::_Bit_reference (a pointer to the
+ * cell) and ASSERTS the index, which libstdc++ leaves undefined */
+typedef struct { _Bool *data; size_t size; size_t cap; } vec_bool;
+typedef struct { _Bool *p; } bitref_t;
+static inline void vec_bool__ctor_2(vec_bool *v, size_t n, const _Bool *xp)
+{ __CPROVER_assert(n <= VEC_LOCAL_CAP, "model limit: vector capacity");
+  v->data = (_Bool *)__verif_new_array(sizeof(_Bool), VEC_LOCAL_CAP); v->size = n; v->cap = VEC_LOCAL_CAP;
+  __CPROVER_array_set(v->data, *xp); }   /* every cell (no loop) */
+static inline size_t vec_bool__size(vec_bool *v) { return v->size; }
+static inline bitref_t vec_bool__op_index(vec_bool *v, size_t i)
+{ __CPROVER_assert(i < v->size, "vector index in range"); bitref_t r; r.p = &v->data[i < v->size ? i : 0]; return r; }
+static inline _Bool bitref_t__op_bool(bitref_t *r) { return *r->p; }
+static inline bitref_t *bitref_t__op_assign(bitref_t *r, _Bool x) { *r->p = x; return r; }
 /* std::string: concrete character buffer plus an abstract identity `absid`
  * used when the string only travels from a stream into a hash or a map key */
 typedef struct { char *data; size_t size; size_t cap; long absid; } str_t;
